@@ -95,7 +95,7 @@ PROPS = {
     },
     'C08': {
         'lean': ['Netpol.Properties.C08'],
-        'families': [('shuffle', 500, 20000), ('fmt', 150, 6000)],
+        'families': [('shuffle', 1200, 20000), ('fmt', 400, 6000)],
         'shard_min': 40,
         'rule': 'worlds and a permutation (documents reordered and spread over 1-4 files, rules/peers/ports permuted); both runs must give the identical relation; '
                 'fmt family: every list format (txt, json, dot, csv, md; exposure on/off, focus) and diff format (txt, csv, md, dot) produced twice by fresh analyzers must be byte-identical',
@@ -131,7 +131,7 @@ PROPS = {
     },
     'C18': {
         'lean': ['Netpol.Properties.C18', 'Netpol.Tie.C18'],
-        'families': [('fmt', 150, 6000)],
+        'families': [('fmt', 400, 6000)],
         'shard_min': 40,
         'rule': 'worlds x {5 list formats} x {exposure, focusworkload, --fail} and, for half of them, a second world x {4 diff formats}: the command line run in-process '
                 '(hook VerifRun: fresh cobra root per run, stdout captured) and the built binary (first format of every case: exit status and stdout of the real process) '
@@ -140,7 +140,7 @@ PROPS = {
     },
     'C09': {
         'lean': ['Netpol.Properties.C09'],
-        'families': [('fmt', 150, 6000)],
+        'families': [('fmt', 400, 6000)],
         'shard_min': 40,
         'rule': 'as C18; every list format is parsed back by a format-specific parser (regexp for txt/md/dot, encoding/json, encoding/csv) and compared with the '
                 '[]Peer2PeerConnection returned by the API and with every other format; every diff format is checked to hold exactly the added / removed / changed '
